@@ -68,6 +68,12 @@ func suiteExport(c *ctx) {
 			fk("orders", "fk_users_orders", "user_id", "users", "id"), fk("reviews", "fk_users_reviews", "author_id", "users", "id")}
 		emit("w-two-tables-one-target", runCfg{dialect: "mysql"}, ss4, nil)
 		emit("w-two-tables-one-target-selected", runCfg{dialect: "mysql", lower: true}, ss4, []string{"reviews", "orders"})
+		// C14-g: two (table, referenced table) pairs whose names concatenate to the same text
+		ss5 := []Stmt{tbl("status", col("id", "int(11)", oNotNull, oPk)), tbl("item_status", col("id", "int(11)", oNotNull, oPk)),
+			tbl("order", col("id", "int(11)", oNotNull, oPk), col("item_status_id", "int(11)")),
+			tbl("order_item", col("id", "int(11)", oNotNull, oPk), col("status_id", "int(11)")),
+			fk("order", "fk_item_status_order", "item_status_id", "item_status", "id"), fk("order_item", "fk_status_order_item", "status_id", "status", "id")}
+		emit("w-colliding-relation-names", runCfg{dialect: "mysql"}, ss5, nil)
 		// a key created and dropped again
 		ss2 := append(append([]Stmt{}, ss...), Stmt{Kind: "dropFk", T: "orders", A: "fk_buyer"}, Stmt{Kind: "dropFk", T: "orders", A: "fk_seller"})
 		emit("w-F27-dropped-fk-mark", runCfg{dialect: "mysql"}, ss2, nil)
